@@ -169,6 +169,11 @@ where
     W: Write + Send,
 {
     fn drop(&mut self) {
+        // a writer that was never used must still wait for its turn before
+        // letting the next one write
+        if let Some(v) = self.trigger.as_mut() {
+            v.recv().ok();
+        }
         self.on_finish.send(()).ok();
     }
 }
